@@ -110,14 +110,15 @@ def hash_prepare_optimize(optimize):
 
 
 def hash_contraction(inputs, output, size_dict, optimize, **kwargs):
-    """Compute a hash key for the specified contraction."""
+    """Compute a hashable key for the specified contraction. Note this is the
+    tuple of everything that defines the contraction *itself*, not its
+    ``hash``: python hashes are not injective (e.g. ``hash(-1) == hash(-2)``),
+    so keying a cache on them can return the path or expression of a different
+    contraction, whereas a ``dict`` compares the full key on lookup.
+    """
     optimize = hash_prepare_optimize(optimize)
     kwargs = frozenset(kwargs.items())
-    return (
-        hash((inputs, output, tuple(size_dict.items()), optimize, kwargs)),
-        # add this as a basic way to decrease collisions
-        len(inputs),
-    )
+    return (inputs, output, tuple(size_dict.items()), optimize, kwargs)
 
 
 def normalize_input(
